@@ -1332,7 +1332,12 @@ func (schema *Schema) visitNotOperation(settings *schemaValidationSettings, valu
 		if v == nil {
 			return foundUnresolvedRef(ref.Ref)
 		}
-		if err := v.visitJSON(settings, value); err == nil {
+		// what the negated schema would inject (defaults) is no part of the value: it is visited on a copy
+		notValue := value
+		if settings.asreq || settings.asrep {
+			notValue = deepcopy.Copy(value)
+		}
+		if err := v.visitJSON(settings, notValue); err == nil {
 			if settings.failfast {
 				return errSchema
 			}
